@@ -284,6 +284,56 @@ def check_memo_owner(fi, rep, rule, cache, vals, node):
         rep.ok(rule, (fi, node), f"memo `{cache}` shared between objects stores values that do not depend on self")
 
 
+_MUTATING_METHODS = {"append", "extend", "insert", "update", "setdefault", "pop", "popitem", "remove", "clear", "sort", "reverse", "add", "discard"}
+
+
+def check_shared_results(prog, mod, rep, rule):
+    """The result of a function memoised with functools.cache / lru_cache is one object shared by all callers: a caller
+    must not modify it in place (`x += [...]`, `x.append(..)`, `x[k] = ..`), directly or after parking it in an
+    attribute, or every later caller - and every object that already holds it - sees the change."""
+    cached = {}
+    for fi in mod.functions.values():
+        decos = [norm(d.func if isinstance(d, ast.Call) else d).split(".")[-1] for d in fi.node.decorator_list]
+        if any(d in ("cache", "lru_cache") for d in decos):
+            cached[fi.name] = fi
+    n = 0
+    if not cached:
+        return 0
+    funcs = list(mod.functions.values()) + [f for c in mod.classes.values() for f in c.all_defs]
+    for fi in funcs:
+        shared = {}  # target text -> (cached function, call node)
+        for st in ast.walk(fi.node):
+            if isinstance(st, ast.Assign) and isinstance(st.value, ast.Call) and norm(st.value.func) in cached:
+                for t in st.targets:
+                    for e in (t.elts if isinstance(t, (ast.Tuple, ast.List)) else [t]):
+                        shared[norm(e)] = (norm(st.value.func), st)
+        if not shared:
+            continue
+        n_before = n
+        for st in ast.walk(fi.node):
+            hit = None
+            if isinstance(st, ast.AugAssign) and norm(st.target) in shared:
+                hit = norm(st.target)
+            elif isinstance(st, ast.Call) and isinstance(st.func, ast.Attribute) and st.func.attr in _MUTATING_METHODS and norm(st.func.value) in shared:
+                hit = norm(st.func.value)
+            elif isinstance(st, (ast.Assign, ast.Delete)):
+                for t in st.targets:
+                    if isinstance(t, ast.Subscript) and norm(t.value) in shared:
+                        hit = norm(t.value)
+            if hit:
+                n += 1
+                rep.violation(
+                    rule,
+                    (fi, st),
+                    norm(st)[:120],
+                    f"{fi.qualname} modifies `{hit}` in place, which is (part of) the memoised result of {shared[hit][0]}(): the one object handed to every caller changes, "
+                    "so what a cell / form / algorithm object reports depends on how many others were created",
+                )
+        if n == n_before:
+            rep.ok(rule, fi, f"{fi.qualname}: the memoised results of {sorted({v[0] for v in shared.values()})} bound to {sorted(shared)} are not modified in place")
+    return n
+
+
 def check_singleton_memos(prog, mod, fi, rep, rule):
     """`if self.X is None: self.X = E` (a memo with the empty key): E may depend on the object only, not on the
     arguments of the call that happens to fill it"""
@@ -343,6 +393,7 @@ def check_memo_keys(ctx, rep, rule, modules, min_sites=1, only_functions=None, o
                     by_cache.setdefault((owner, cache), []).append((fi, node, keys[0], norm(vals[0].func), _fn_locals(fi.node)))
         if not owner_only:
             check_site_separation(rep, rule, by_cache)
+            check_shared_results(prog, mod, rep, rule)
         for fi in funcs:
             if only_functions and fi.qualname not in only_functions:
                 continue
@@ -412,6 +463,26 @@ def check_memo_keys(ctx, rep, rule, modules, min_sites=1, only_functions=None, o
 
 # rcache / result_cache only intern equal results (result -> result): sharing them is harmless
 POSITIVE = '''
+from functools import cache
+
+
+@cache
+def table_for(name):
+    return [name], {name: 1}
+
+
+def bad_extends_shared(obj, name):
+    obj.rows, obj.index = table_for(name)
+    obj.rows += [(obj,)]
+    return obj
+
+
+def good_copies_shared(obj, name):
+    rows, index = table_for(name)
+    obj.rows = list(rows) + [(obj,)]
+    return obj
+
+
 class Alg:
     def good(self, o, a):
         key = (o, a)
@@ -491,8 +562,8 @@ def positive_control(ctx):
     probe = Report("probe")
     check_memo_keys(ctx, probe, "probe", [name], min_sites=0)
     flagged = {f.scope.split(".")[-1] for f in probe.findings}
-    if flagged != {"bad", "bad_built_in_place", "bad_shared_b", "bad_singleton", "bad_shared_between_objects"}:
-        raise AnalysisError(f"memo-key positive control: flagged {sorted(flagged)}, expected bad, bad_built_in_place, bad_shared_b, bad_singleton, bad_shared_between_objects")
+    if flagged != {"bad", "bad_built_in_place", "bad_shared_b", "bad_singleton", "bad_shared_between_objects", "bad_extends_shared"}:
+        raise AnalysisError(f"memo-key positive control: flagged {sorted(flagged)}, expected bad, bad_built_in_place, bad_shared_b, bad_singleton, bad_shared_between_objects, bad_extends_shared")
 
 
 def memo_rule(ctx, rep, rule, modules, min_sites=0):
